@@ -8,6 +8,7 @@ package main
 import (
 	"fmt"
 	"math/big"
+	"strings"
 	"time"
 
 	collectiveskeeper "github.com/KiraCore/sekai/x/collectives/keeper"
@@ -125,6 +126,14 @@ func c08PoolElectorate(r *Rec) {
 		if halted {
 			r.Count("pool-electorate:block-panicked")
 			continue
+		}
+		// the model's verdict on the same ballot (Gov.localResult: stored quorum, distinct owners)
+		{
+			var accs []string
+			for i := 0; i < n; i++ {
+				accs = append(accs, fmt.Sprint(i))
+			}
+			r.Op(fmt.Sprintf("gov local-tally q=%s accs=%s role=- y=%d n=0 a=0 v=0 o=0", qs, strings.Join(accs, ","), v), resName(result))
 		}
 		// votes / owners >= stored quorum, in integers
 		lhs := new(big.Int).Mul(big.NewInt(int64(v)), new(big.Int).Exp(big.NewInt(10), big.NewInt(18), nil))
@@ -286,6 +295,21 @@ func c08CollectiveElectorate(r *Rec) {
 			if p, ok := w.app.CustomGovKeeper.GetProposal(w.ReadCtx(), pid); ok {
 				result = p.Result
 			}
+		}
+		{
+			accs := []string{fmt.Sprint(dup)}
+			if extra == 1 {
+				accs = append(accs, "6")
+			}
+			var role []string
+			for i := 0; i < nRole; i++ {
+				role = append(role, fmt.Sprint(i))
+			}
+			out := resName(result)
+			if halted {
+				out = "panic"
+			}
+			r.Op(fmt.Sprintf("gov local-tally q=%s accs=%s role=%s y=%d n=0 a=0 v=0 o=0", qs, strings.Join(accs, ","), strings.Join(role, ","), v), out)
 		}
 		if halted {
 			continue
